@@ -19,12 +19,13 @@ import (
 // ---------------------------------------------------------------- fault schedules (written by TLC from Results.tla)
 
 type faultStep struct {
-	Kind string `json:"kind"` // cut | relay | remote
+	Kind string `json:"kind"` // cut | relay | remote | submitter
 	When int    `json:"when"` // number of remote chunks on disk when the fault strikes
 }
 
 type schedule struct {
 	Faults []faultStep `json:"faults"`
+	Link   string      `json:"link"` // plain | bursty (the relay in front of the submitting node delivers in bursts)
 }
 
 func (s schedule) key() string {
@@ -32,11 +33,15 @@ func (s schedule) key() string {
 	for _, f := range s.Faults {
 		p = append(p, fmt.Sprintf("%s@%d", f.Kind, f.When))
 	}
+	k := strings.Join(p, ",")
 	if len(p) == 0 {
-		return "nofault"
+		k = "nofault"
+	}
+	if s.Link == "bursty" {
+		k += "+bursty"
 	}
 
-	return strings.Join(p, ",")
+	return k
 }
 
 type faultLog struct {
@@ -58,6 +63,9 @@ type remoteRec struct {
 	GrowthSteps  int64      `json:"local_growth_steps"`
 	StatusAhead  int64      `json:"observations_final_status_ahead_of_output"`
 	HeldTillDone bool       `json:"last_fault_held_until_remote_finished"`
+	BurstMs      int64      `json:"burst_period_ms"`
+	Bursts       int64      `json:"bursts_delivered"`
+	KilledShort  bool       `json:"submitter_killed_with_final_record_and_short_output"`
 	RemoteSize   int64      `json:"remote_size"`
 	LocalSize    int64      `json:"local_size"`
 	RemoteState  int        `json:"remote_state"`
@@ -127,7 +135,7 @@ func cmdRemote(args []string) {
 	default:
 		// one schedule per fault kind first (seeded choice among those ending with that kind while output is being copied), the rest seeded
 		used := map[string]bool{}
-		for _, kind := range []string{"cut", "relay", "remote"} {
+		for _, kind := range []string{"cut", "relay", "remote", "submitter"} {
 			var c []schedule
 			for _, s := range all {
 				if len(s.Faults) > 0 && s.Faults[len(s.Faults)-1].Kind == kind && s.Faults[len(s.Faults)-1].When >= 1 {
@@ -343,9 +351,16 @@ func (sc *scenario) run() {
 		} else {
 			sz = 50 + rng.Int63n(3000)
 		}
+		napAfter := 1.2 + rng.Float64()*1.8
+		if nf := len(sc.sched.Faults); i == n-1 && nf > 0 && sc.sched.Faults[nf-1].Kind == "submitter" && sc.sched.Faults[nf-1].When >= n {
+			// the submitting daemon is to die when its record is already final but the copy is not: a last chunk that
+			// takes seconds to copy, the unit finishing right behind it
+			sz = 2500*1024 + rng.Int63n(600*1024)
+			napAfter = 0.05
+		}
 		sc.rec.Chunks = append(sc.rec.Chunks, sz)
 		cum[i+1] = cum[i] + sz
-		fmt.Fprintf(&sb, "emit %d\nnap %.2f\n", sz, 1.2+rng.Float64()*1.8)
+		fmt.Fprintf(&sb, "emit %d\nnap %.2f\n", sz, napAfter)
 	}
 	sb.WriteString("exit 0\n")
 	total := cum[n]
@@ -354,6 +369,23 @@ func (sc *scenario) run() {
 		sc.fail(err.Error())
 
 		return
+	}
+	stopBurst := make(chan struct{})
+	defer close(stopBurst)
+	if sc.sched.Link == "bursty" {
+		// what travels towards the submitting node arrives in bursts, so that a reply line and the data written a little
+		// later become readable in the same instant.  Two variants (seeded): periodic bursts, or a stall of 300-700 ms
+		// that begins whenever the output mirror issues a request (hook event rw_out_req in a's trace file).
+		sc.ra.NewestFirst.Store(true) // within a burst the data messages arrive newest first (loss + retransmission)
+		if rng.Intn(3) == 0 {
+			p := time.Duration(600+rng.Intn(500)) * time.Millisecond
+			sc.rec.BurstMs = p.Milliseconds()
+			sc.ra.SetBurst(p)
+		} else {
+			sc.rec.BurstMs = -1
+			seedHold := rng.Int63()
+			go sc.holdOnRequests(stopBurst, seedHold)
+		}
 	}
 	sub, err := resd.SubmitBegin(sc.a.Sock, "c", "sh", script, 30*time.Second)
 	if err != nil {
@@ -420,7 +452,8 @@ func (sc *scenario) run() {
 	}
 	clientCh := make(chan clientOut, 1)
 	clientStop := make(chan struct{})
-	go func() {
+	var runClient func(ch chan clientOut, stop chan struct{})
+	runClient = func(clientCh chan clientOut, clientStop chan struct{}) {
 		co := clientOut{mismatch: -1}
 		rs, err := resd.OpenResults(sc.a.Sock, localID, 0, 60*time.Second)
 		if err != nil {
@@ -460,7 +493,8 @@ func (sc *scenario) run() {
 			default:
 			}
 		}
-	}()
+	}
+	go runClient(clientCh, clientStop)
 
 	// faults
 	remoteSize := func() int64 {
@@ -501,6 +535,19 @@ func (sc *scenario) run() {
 			}
 		} else {
 			time.Sleep(time.Duration(rng.Intn(900)) * time.Millisecond)
+		}
+		if f.Kind == "submitter" && fi == len(sc.sched.Faults)-1 && w >= n {
+			// wait for "local record final, local copy shorter than its StdoutSize"
+			for time.Now().Before(dl) {
+				if st, err := resd.ReadStatusFile(sc.localDir); err == nil && terminal(st.State) {
+					if l := resd.FileSize(sc.localOut); l < st.StdoutSize {
+						sc.rec.KilledShort = true
+					}
+
+					break
+				}
+				time.Sleep(2 * time.Millisecond)
+			}
 		}
 		hold := time.Duration(500+rng.Intn(2500)) * time.Millisecond
 		// a fault on the last chunk is (mostly) held until the remote unit has finished: after the repair the status
@@ -546,6 +593,23 @@ func (sc *scenario) run() {
 
 				return
 			}
+		case "submitter":
+			// the submitting daemon dies and comes back on its data directory; its clients die with it
+			fl.Target = "a"
+			sc.a.Kill()
+			sc.observe("after submitter kill")
+			time.Sleep(hold / 2)
+			if err := sc.a.Start(60 * time.Second); err != nil {
+				sc.fail("restart a: " + err.Error())
+				close(stopObs)
+				close(clientStop)
+
+				return
+			}
+			<-clientCh // the old stream ended with the daemon: not judged
+			clientCh = make(chan clientOut, 1)
+			go runClient(clientCh, clientStop)
+			res.count("clients_reopened_after_submitter_restart", 1)
 		case "remote":
 			fl.Target = "c"
 			sc.c.Kill()
@@ -644,6 +708,15 @@ func (sc *scenario) run() {
 	if sc.rec.HeldTillDone {
 		res.count("scenarios_last_fault_held_until_remote_finished", 1)
 	}
+	if sc.rec.KilledShort {
+		res.count("scenarios_submitter_killed_with_final_record_and_short_output", 1)
+	}
+	if sc.sched.Link == "bursty" {
+		sc.rec.Bursts = sc.ra.Flushes.Load()
+		res.count("scenarios_bursty_link", 1)
+		res.count("bursts_delivered", int(sc.rec.Bursts))
+		res.count("bursts_reordered", int(sc.ra.Reordered.Load()))
+	}
 	res.sample(sc.rec, 6)
 	if sc.violated.Load() {
 		return
@@ -709,6 +782,10 @@ func (sc *scenario) setup(attempt int) error {
 	if sc.a, err = resd.NewDaemon(sc.bin, sc.root, "a", resd.NodeCfg{ListenPort: pa}); err != nil {
 		return err
 	}
+	if sc.sched.Link == "bursty" {
+		sc.a.Trace = filepath.Join(sc.root, "a.trace")
+		_ = os.Remove(sc.a.Trace)
+	}
 	if sc.c, err = resd.NewDaemon(sc.bin, sc.root, "c", resd.NodeCfg{ListenPort: pc, WorkTypes: []string{"sh"}}); err != nil {
 		return err
 	}
@@ -736,6 +813,43 @@ func (sc *scenario) teardown() {
 		}
 	}
 	resd.ReapAll(sc.root, sc.bin)
+}
+
+// holdOnRequests follows a's hook trace; at every "work results" request of the output mirror it stalls the
+// direction towards a for 300-700 ms (the remote side writes the header at once and the first data 250 ms later).
+func (sc *scenario) holdOnRequests(stop chan struct{}, seed int64) {
+	rng := rand.New(rand.NewSource(seed))
+	var off int64
+	var carry []byte
+	for {
+		select {
+		case <-stop:
+			return
+		default:
+		}
+		f, err := os.Open(sc.a.Trace)
+		if err == nil {
+			if _, err = f.Seek(off, 0); err == nil {
+				b := make([]byte, 256*1024)
+				n, _ := f.Read(b)
+				if n > 0 {
+					off += int64(n)
+					data := append(carry, b[:n]...)
+					if i := bytes.LastIndexByte(data, '\n'); i >= 0 {
+						if bytes.Contains(data[:i], []byte(`"rw_out_req"`)) {
+							sc.ra.HoldFor(time.Duration(300+rng.Intn(400)) * time.Millisecond)
+							sc.res.count("holds_on_request", 1)
+						}
+						carry = append([]byte{}, data[i+1:]...)
+					} else {
+						carry = data
+					}
+				}
+			}
+			f.Close()
+		}
+		time.Sleep(300 * time.Microsecond)
+	}
 }
 
 // waitRoute waits until a's routing table knows c.
